@@ -1,3 +1,4 @@
+mod grid_drv;
 mod level_drv;
 mod model;
 mod queue_drv;
@@ -35,6 +36,17 @@ fn main() {
             write_lines(&args[3], &lines);
             if args.len() > 4 {
                 std::fs::write(&args[4], serde_json::to_string(&meta).unwrap()).unwrap();
+            }
+        }
+        "grid" => {
+            let scs = read_ndjson(&args[2]);
+            let mut lines = vec![];
+            for sc in &scs {
+                lines.extend(grid_drv::run(sc));
+            }
+            write_lines(&args[3], &lines);
+            if args.len() > 4 {
+                std::fs::write(&args[4], "[]").unwrap();
             }
         }
         "queue" => {
